@@ -6,7 +6,7 @@ fn main() {
         if p.len() != 4 { continue; }
         let (id, a, b): (u32, i64, i64) = (p[1].parse().unwrap(), p[2].parse().unwrap(), p[3].parse().unwrap());
         let which = p[0].to_string();
-        let r = std::panic::catch_unwind(move || if which == "s" { modelprobe::probe(id, a, b) } else { modelprobe::probe_iter(id, a, b) });
+        let r = std::panic::catch_unwind(move || match which.as_str() { "s" => modelprobe::probe(id, a, b), "i" => modelprobe::probe_iter(id, a, b), "o" => modelprobe::probe_opt(id, a, b), "m" => modelprobe::probe_map(id, a, b), "f" => modelprobe::probe_fmt(id, a, b), "c" => modelprobe::probe_char(id, a, b), _ => modelprobe::probe_str2(id, a, b) });
         match r { Ok(v) => println!("{:?}", v), Err(_) => println!("[-2]") }
     }
 }
